@@ -46,6 +46,10 @@ func Rebuild(t *Term, args []*Term) *Term {
 		return ToReal(args[0])
 	case OToInt:
 		return ToInt(args[0])
+	case OBV2Nat:
+		return BV2Nat(args[0])
+	case OInt2BV:
+		return Int2BV(t.A, args[0])
 	case OApp:
 		return mk(&Term{Op: OApp, Sort: t.Sort, Name: t.Name, Args: args})
 	}
